@@ -99,6 +99,54 @@ let show_q k = function
     let ga = (match a with [] -> "-" | _ -> String.concat ";" (List.map (fmt_list "+") a)) in
     k ^ " ok " ^ ga ^ " " ^ fmt_list "," o
 
+(* ---- stateful tag scenarios (TagState.v): TS <ns> <maxTagCount> <holders> <requests> ---- *)
+let split c s = if s = "-" || s = "" then [] else String.split_on_char c s
+let kind_of = function "g" -> TagState.KGrp | _ -> TagState.KMe
+let str_of_kind = function TagState.KGrp -> "g" | TagState.KMe -> "m"
+let nn s = n_of_int (int_of_string s)
+
+let ts_req (s : string) : TagState.req =
+  match String.split_on_char '.' s with
+  | ["s"; h; who; f; l] -> TagState.SetTags (nn h, nn who, f = "1", list_of l)
+  | ["g"; h; who] -> TagState.GetTags (nn h, nn who)
+  | ["u"; h] -> TagState.Unload (nn h)
+  | ["n"; h; who; l] -> TagState.NewGrp (nn h, nn who, list_of l)
+  | ["a"; h; l; au] -> TagState.NewUser (nn h, list_of l, list_of' au)
+  | ["v"; h; ad; rm] -> TagState.SrvTags (nn h, list_of' ad, list_of' rm)
+  | _ -> failwith ("bad request " ^ s)
+
+let ts_resp = function
+  | TagState.RCtrl (code, a, r) -> Printf.sprintf "c%d.%d.%d" (int_of_n code) (int_of_nat a) (int_of_nat r)
+  | TagState.RTags l -> "t" ^ fmt_list "," l
+  | TagState.RNone -> "n"
+
+let ts_state (ids : int list) (w : TagState.world) : string =
+  String.concat ";" (List.filter_map (fun i ->
+    match TagState.lookup (n_of_int i) w with
+    | None -> None
+    | Some hd ->
+      Some (Printf.sprintf "%d.%s.%d.%s.%s" i (str_of_kind hd.TagState.h_kind) (int_of_n hd.TagState.h_owner)
+              (fmt_list "," hd.TagState.h_store)
+              (match hd.TagState.h_cache with None -> "~" | Some c -> fmt_list "," c))) ids)
+
+let ts_run (ns : string) (mx : string) (init : string) (ops : string) : string =
+  let c = { TagState.c_ns = list_of' ns; TagState.c_max = nat_of_int (int_of_string mx) } in
+  let w0 = List.fold_left (fun w s ->
+    match String.split_on_char '.' s with
+    | [h; k; o; l] -> TagState.put (nn h) { TagState.h_kind = kind_of k; TagState.h_owner = nn o;
+                                             TagState.h_store = list_of' l; TagState.h_cache = None } w
+    | _ -> failwith ("bad holder " ^ s)) [] (split ';' init) in
+  let reqs = List.map ts_req (split '/' ops) in
+  let id_of = function
+    | TagState.SetTags (h, _, _, _) | TagState.GetTags (h, _) | TagState.Unload h | TagState.NewGrp (h, _, _)
+    | TagState.NewUser (h, _, _) | TagState.SrvTags (h, _, _) -> int_of_n h in
+  let ids = List.sort_uniq compare
+      (List.map (fun s -> int_of_string (List.hd (String.split_on_char '.' s))) (split ';' init) @ List.map id_of reqs) in
+  let _, outs = List.fold_left (fun (w, acc) r ->
+    let (w', a) = TagState.step lower is_letter is_digit is_number c w r in
+    (w', (ts_resp a ^ "|" ^ ts_state ids w') :: acc)) (w0, []) reqs in
+  "TS " ^ String.concat "/" (List.rev outs)
+
 let handle (w : string list) : string =
   load ();
   match w with
@@ -117,8 +165,15 @@ let handle (w : string list) : string =
     let show = function None -> "nil" | Some r -> "ok " ^ fmt_list "," r in
     let r1 = norm (list_of l) in
     "NN " ^ show r1 ^ " | " ^ show (norm r1)
-  | ["F"; ns; l] -> "F " ^ fmt_list "," (Tags.filter_restricted is_letter is_number (list_of' l) (list_of' ns))
-  | ["R"; ns; o; n] -> "R " ^ b2s (Tags.restricted_tags_equal is_letter is_number (list_of' o) (list_of' n) (list_of' ns))
+  (* "same": the model's lists are immutable, the call leaves its argument slices as they were *)
+  | ["F"; ns; l] -> "F " ^ fmt_list "," (Tags.filter_restricted is_letter is_number (list_of' l) (list_of' ns)) ^ " same"
+  | ["R"; ns; o; n] -> "R " ^ b2s (Tags.restricted_tags_equal is_letter is_number (list_of' o) (list_of' n) (list_of' ns)) ^ " same"
+  | ["TS"; ns; mx; init; ops] -> ts_run ns mx init ops
+  | ["D"; o; n] ->
+    let (o, n) = (list_of' o, list_of' n) in
+    let ((a, r), i) = Tags.string_slice_delta o n in
+    let (o', n') = TagState.delta_args_after o n in
+    "D " ^ fmt_list "," a ^ " " ^ fmt_list "," r ^ " " ^ fmt_list "," i ^ " " ^ fmt_list "," o' ^ " " ^ fmt_list "," n'
   | ["G"; ns; own; terms] -> "G " ^ b2s (Tags.masked_gate is_letter is_number (list_of' own) (list_of' terms) (list_of' ns))
   | ["S"; l] -> "S " ^ fmt_list "," (Tags.sort_strings (list_of' l))
   | _ -> "?"
